@@ -57,6 +57,7 @@ LEVEL_NOTE = "NumPy is the value reference; only program-visible stages are moni
 TECHNIQUE = "runtime monitoring: per-stage, per-block metadata oracle + NumPy differential over generated pipelines and a complete small space"
 CASE_TIMEOUT = 60
 
+BLOCKVIEW_0D = "blocks-view:0-d-array:block-is-not-the-value"
 PENDING = {}
 
 CALIBRATION = []
@@ -97,10 +98,12 @@ def _gen_pipeline(rng):
     shape = A.rand_shape(rng, maxnd=3, maxlen=6, allow_zero=rng.random() < 0.3)
     if not shape and rng.random() < 0.8:
         shape = A.rand_shape(rng, maxnd=3, maxlen=6, minnd=1, allow_zero=False)
-    dtype = rng.choice(A.NUMERIC + ["int64", "float64", "float64", "int32"]) if rng.random() < 0.93 else rng.choice(A.DTYPES)
+    dtype = rng.choice(A.NUMERIC + ["int64", "float64", "float64", "int32"])
     dseed = rng.randrange(2 ** 31)
     chunks = A.rand_chunks(rng, shape)
     if not A.has_split(chunks) and rng.random() < 0.7 and shape:
+        chunks = A.rand_chunks(rng, shape)
+    while int(np.prod([len(c) for c in chunks])) > 30:
         chunks = A.rand_chunks(rng, shape)
     v = A.rand_data(dseed, shape, dtype, special=(dseed % 3 == 0))
     nsteps = rng.randint(2, 6)
@@ -157,9 +160,22 @@ def stage_mismatch(d, whole, ctx):
     whole = np.asarray(whole)
     numblocks = tuple(len(c) for c in d.chunks)
     idxs = list(itertools.product(*[range(n) for n in numblocks]))
-    via_blocks = dask.compute(*[d.blocks[idx] for idx in idxs], scheduler="sync") if d.ndim else (d.blocks[()].compute(scheduler="sync"),)
-    via_delayed = dask.compute(*list(d.to_delayed().ravel()), scheduler="sync")
+    # every block is requested as an output of its own, through both access paths (one scheduler call: the shared
+    # upstream part of the graph is evaluated once)
+    both = dask.compute(*([d.blocks[idx] for idx in idxs] + list(d.to_delayed().ravel())), scheduler="sync")
+    via_blocks, via_delayed = both[:len(idxs)], both[len(idxs):]
+    if d.ndim == 0:
+        # one mechanism, one label: the block view of ANY 0-d array (whatever produced it)
+        b = via_blocks[0]
+        if np.shape(b) != () or getattr(b, "dtype", None) != d.dtype or not _same(b, whole):
+            # reported once per case and NOT treated as "first failing stage": the other facets of this stage and the later
+            # stages are still checked (a known finding must not mask anything else)
+            if not any(v["label"] == BLOCKVIEW_0D for v in ctx.violations):
+                ctx.violation(BLOCKVIEW_0D, "x.blocks[()] of a 0-d array computes to %r, the array's value is %r" % (b, whole),
+                              lazy_dtype=str(d.dtype))
     for how, blks in (("blocks", via_blocks), ("delayed", via_delayed)):
+        if d.ndim == 0 and how == "blocks":
+            continue
         if len(blks) != len(idxs):
             return ("block-count", "%d blocks via %s, numblocks %s" % (len(blks), how, numblocks))
         for idx, blk in zip(idxs, blks):
@@ -188,16 +204,29 @@ def stage_mismatch(d, whole, ctx):
     return None
 
 
-def _features(d_prev, value_prev, case, k):
+def _same(a, b):
+    try:
+        np.testing.assert_array_equal(np.asarray(a), np.asarray(b))
+        return True
+    except Exception:  # noqa: BLE001
+        return False
+
+
+def _features(step, d_prev, value_prev):
+    """Value-free input features of the step that produced a stage (label predicate)."""
     f = []
     if 0 in np.shape(value_prev):
         f.append("zero-length")
     if np.ndim(value_prev) == 0:
         f.append("0-d")
-    if d_prev is not None and any(_isnan(c) for cs in d_prev.chunks for c in cs):
-        f.append("unknown-chunks")
-    if d_prev is not None and not A.has_split(d_prev.chunks):
-        f.append("single-block")
+    if d_prev is not None:
+        if any(_isnan(c) for cs in d_prev.chunks for c in cs):
+            f.append("unknown-chunks")
+        elif any(len(cs) > 1 and 0 in cs for cs in d_prev.chunks):
+            f.append("zero-size-chunk")
+    if step.get("op") == "bincount" and step.get("minlength") and np.size(value_prev) \
+            and int(np.abs(value_prev).max()) >= step["minlength"]:
+        f.append("max>=minlength")
     return "&".join(f) or "-"
 
 
@@ -208,7 +237,6 @@ def run_case(case, ctx):
     x = A.rand_data(case["seed"], case["shape"], case["dtype"], special=(case["seed"] % 3 == 0))
     chunks = A.chunks_of_desc(case["chunks"])
     steps = case["steps"]
-    ctx.nontrivial = len(steps) >= 2 and A.has_split(chunks)
     for st in steps:
         ctx.op(O.variant(st))
     ctx.count("pipelines_len_%d" % len(steps))
@@ -225,61 +253,57 @@ def run_case(case, ctx):
             except Exception as ex:  # noqa: BLE001
                 ctx.reject("numpy: %s: %s" % (type(ex).__name__, ex))
                 return
-            # ---- dask side: build every stage ----------------------------------------------
+            # ---- dask side: build every program-visible stage ----------------------------------
             stages = [da.from_array(x, chunks=chunks)]
+            build_failure = None
             for k, st in enumerate(steps):
                 try:
                     r = O.apply_step(st, stages[-1], "da")
-                except NotImplementedError as ex:
-                    ctx.unsupported("%s: %s" % (O.variant(st), ex))
-                    break
                 except Exception as ex:  # noqa: BLE001
-                    ctx.exception(ex, prefix="%s:%s:build" % (O.variant(st), _features(stages[-1], exp[k], case, k)), step=st, stage=k + 1)
+                    build_failure = (k + 1, st, ex)
                     break
                 if not isinstance(r, da.Array):
-                    ctx.violation("%s:%s:result-not-a-dask-array" % (O.variant(st), _features(stages[-1], exp[k], case, k)), "got %r" % (type(r),))
-                    break
+                    ctx.violation("%s:%s:result-not-a-dask-array" % (O.variant(st), _features(st, stages[-1], exp[k])), "got %r" % (type(r),))
+                    return
                 stages.append(r)
-            if len(stages) < 2:
-                return
-            # ---- one joint compute ------------------------------------------------------------
-            values = None
+            ctx.nontrivial = len(stages) >= 3 and A.has_split(chunks)
+            # ---- one joint compute of all stages -----------------------------------------------
+            values, joint_ex = None, None
             try:
                 values = dask.compute(*stages, scheduler=sched)
                 ctx.count("joint_computes")
-            except NotImplementedError as ex:
-                ctx.unsupported(str(ex))
-                return
-            except Exception as joint_ex:  # noqa: BLE001
-                # find the first stage that fails alone
-                for k in range(1, len(stages)):
-                    try:
-                        stages[k].compute(scheduler="sync")
-                    except Exception as ex:  # noqa: BLE001
-                        st = steps[k - 1]
-                        ctx.exception(ex, prefix="%s:%s:compute" % (O.variant(st), _features(stages[k - 1], exp[k - 1], case, k)), step=st, stage=k)
-                        return
-                ctx.exception(joint_ex, prefix="joint-compute")
-                return
-            # ---- per stage facets ---------------------------------------------------------------
+            except Exception as ex:  # noqa: BLE001
+                joint_ex = ex
+            # ---- per stage facets, in program order ------------------------------------------------
             inexact, scale, nmax = False, 1.0, 1
             for k in range(len(stages)):
-                d, whole, e = stages[k], values[k], exp[k]
+                d, e = stages[k], exp[k]
                 st = steps[k - 1] if k else {"op": "from_array"}
-                feat = _features(stages[k - 1] if k else None, exp[k - 1] if k else x, case, k)
+                feat = _features(st, stages[k - 1] if k else None, exp[k - 1] if k else x)
                 name = O.variant(st)
+                if values is not None:
+                    whole = values[k]
+                else:
+                    try:
+                        whole = d.compute(scheduler="sync")
+                    except NotImplementedError as ex:
+                        ctx.unsupported("%s: %s" % (name, ex))
+                        return
+                    except Exception as ex:  # noqa: BLE001
+                        ctx.exception(ex, prefix="%s:%s:compute" % (name, feat), step=st, stage=k, lazy_chunks=str(d.chunks))
+                        return
                 ctx.count("stages_checked")
                 if any(_isnan(c) for cs in d.chunks for c in cs):
                     ctx.count("stages_unknown_chunks")
                 try:
                     m = stage_mismatch(d, whole, ctx)
                 except Exception as ex:  # noqa: BLE001
-                    ctx.exception(ex, prefix="%s:%s:block-compute" % (name, feat), step=st, stage=k)
+                    ctx.exception(ex, prefix="%s:%s:block-compute" % (name, feat), step=st, stage=k, lazy_chunks=str(d.chunks))
                     return
                 if m:
                     ctx.violation("%s:%s:%s" % (name, feat, m[0]), m[1], step=st, stage=k, lazy_chunks=str(d.chunks), lazy_dtype=str(d.dtype))
                     return
-                # NumPy differential
+                # NumPy differential (catches metadata that is wrong together with the computation)
                 if k and O.inexact(st, e.dtype.kind):
                     inexact = True
                 if e.dtype.kind in "fc" and e.size:
@@ -292,5 +316,20 @@ def run_case(case, ctx):
                 if m:
                     ctx.violation("%s:%s:vs-numpy-%s" % (name, feat, m[0]), m[1], step=st, stage=k, lazy_chunks=str(d.chunks))
                     return
-    ctx.sample = {"steps": [O.variant(s) for s in steps], "chunks": case["chunks"],
-                  "stage_chunks": [str(s.chunks) for s in stages[1:]][:6], "final_dtype": str(stages[-1].dtype)}
+            if joint_ex is not None:
+                ctx.exception(joint_ex, prefix="joint-compute-only")
+                return
+            ctx.sample = {"steps": [O.variant(s) for s in steps], "chunks": case["chunks"],
+                          "stage_chunks": [str(s.chunks) for s in stages[1:]][:6], "final_dtype": str(stages[-1].dtype)}
+            if build_failure is not None:
+                # Every stage that exists was checked and is consistent; the next step could not even be built.  C25 speaks
+                # about expressions that have a computed result, so this is recorded as a skipped case (see skip_reasons),
+                # never as "held": the skipped fraction is bounded by FLOORS.
+                k, st, ex = build_failure
+                ctx.count("build_refused")
+                from ..core.ctx import exc_label
+
+                why = "dask could not build %s (%s): %s" % (O.variant(st), _features(st, stages[-1], exp[k - 1]), exc_label(ex))
+                ctx.op("build-refused:%s:%s" % (O.variant(st), exc_label(ex)))
+                if len(stages) < 2 or isinstance(ex, NotImplementedError):
+                    ctx.unsupported(why)
